@@ -22,6 +22,8 @@ Directives (each on its own line, inside the template):
   //@   before[@k] <anchor>  following lines go before the (k-th) source line whose stripped text is <anchor>
   //@   after[@k] <anchor>   ... after it
   //@   subst <ID> <count> <<<old>>> => <<<new>>>     listed normalisation (N-*) or closure contract (I-5)
+  //@   substre <ID> <count> <<<regex>>> => <<<new with \\1..>>>   the same, the construct matched by a regular expression
+  //@                        whose groups (the expressions inside the construct) are carried over unchanged
   //@   body                 following lines REPLACE nothing: only legal with external_body (ignored body)
   //@@ end
   a clause label is a comment line  `// [C01.q_lookup]`  inside a spec/loop/before/after section; it tags
@@ -314,6 +316,21 @@ def expand_fn(src, qual, opts, sections, tline0, notes, drop_hints=False):
     text, lm = drop_trace_macros(raw, base_line, notes, src.rel)
     # D-2: attribute / doc lines inside are kept (they are rare); normalisations:
     for s in sections:
+        if s['kind'] == 'subst' and s.get('re'):
+            # substre: the construct is matched by a regular expression whose groups (the expressions inside it) are carried
+            # over unchanged (\\1, \\2 in the replacement); the rewrite must keep every line break of the match
+            rx = re.compile(s['old'])
+            hits = list(rx.finditer(text))
+            for h in reversed(hits):
+                rep = h.expand(s['new'])
+                if rep.count('\n') != h.group(0).count('\n'):
+                    raise GenError('%s %s: substre %s must preserve line count' % (src.rel, qual, s['id']))
+                text = text[:h.start()] + rep + text[h.end():]
+            if len(hits) != s['count']:
+                notes.append({'id': 'SUBST-COUNT', 'what': 'substre %s: expected %d occurrence(s), found %d' % (s['id'], s['count'], len(hits)), 'file': src.rel, 'fn': qual})
+            if hits:
+                notes.append({'id': s['id'], 'what': 'rewrite /%s/ => %r (x%d)' % (s['old'], s['new'], len(hits)), 'file': src.rel, 'fn': qual})
+            continue
         if s['kind'] == 'subst':
             cnt = text.count(s['old'])
             if s['old'].count('\n') != s['new'].count('\n'):
@@ -677,7 +694,7 @@ def parse_opts(words):
     return opts
 
 
-SUBST_RX = re.compile(r'^subst\s+(\S+)\s+(\d+)\s+<<<(.*?)>>>\s*=>\s*<<<(.*?)>>>\s*$', re.S)
+SUBST_RX = re.compile(r'^subst(?:re)?\s+(\S+)\s+(\d+)\s+<<<(.*?)>>>\s*=>\s*<<<(.*?)>>>\s*$', re.S)
 
 
 def generate(repo, tmpl_path, outdir, probe=None, drop_hints=()):
@@ -756,12 +773,12 @@ def generate(repo, tmpl_path, outdir, probe=None, drop_hints=()):
                         cur = {'kind': 'atend', 'lines': []}
                     elif head == 'atstart':
                         cur = {'kind': 'atstart', 'lines': []}
-                    elif head == 'subst':
+                    elif head in ('subst', 'substre'):
                         m = SUBST_RX.match(body)
                         if not m:
-                            raise GenError('template line %d: bad subst' % (i + 1))
+                            raise GenError('template line %d: bad subst: %s' % (i + 1, body[:80]))
                         cur = {'kind': 'subst', 'id': m.group(1), 'count': int(m.group(2)),
-                               'old': m.group(3).replace('\\n', '\n'), 'new': m.group(4).replace('\\n', '\n'), 'lines': []}
+                               'old': m.group(3).replace('\\n', '\n'), 'new': m.group(4).replace('\\n', '\n'), 'lines': [], 're': head == 'substre'}
                     else:
                         raise GenError('template line %d: unknown directive %s' % (i + 1, head))
                     sections.append(cur)
